@@ -239,6 +239,45 @@ def all_matchings(n: int):
         yield tuple(sorted(m))
 
 
+def perfect_matchings(k: int):
+    """every perfect matching of 2k endpoints 0..2k-1 (chord diagrams): (2k-1)!! of them"""
+
+    def rec(free: Tuple[int, ...]):
+        if not free:
+            yield ()
+            return
+        a, rest = free[0], free[1:]
+        for idx, b in enumerate(rest):
+            for m in rec(rest[:idx] + rest[idx + 1:]):
+                yield ((a, b),) + m
+
+    yield from rec(tuple(range(2 * k)))
+
+
+def chord_structure(chords, spaced: bool = True, lens=None) -> Tuple[str, tuple]:
+    """structure with one stem per chord (stem t, in 5' order of the chords as given, has lens[t] pairs, default 1);
+    with spaced=True an unpaired nucleotide sits between consecutive endpoint blocks, so no two stems stack and every
+    chord is a stem of its own: k chords = k stems, and the structures of all chord diagrams on k chords realise
+    every conflict-graph topology AND every 5'->3' stem order with k stems"""
+    k = len(chords)
+    lens = list(lens) if lens else [1] * k
+    owner = {}
+    for t, (a, b) in enumerate(chords):
+        owner[a] = t
+        owner[b] = t
+    pos = 1
+    start = {}
+    for e in range(2 * k):
+        start[e] = pos
+        pos += lens[owner[e]] + (1 if spaced else 0)
+    n = pos - 1 - (1 if spaced else 0)
+    pairs = []
+    for t, (a, b) in enumerate(chords):
+        for d in range(lens[t]):
+            pairs.append((start[a] + d, start[b] + lens[t] - 1 - d))
+    return (seq_for(n, k), tuple(sorted(pairs)))
+
+
 def seq_for(n: int, salt: int = 0) -> str:
     return "".join(SEQ_LETTERS[(k * 7 + salt * 3 + (k // 5)) % len(SEQ_LETTERS)] for k in range(n))
 
